@@ -647,8 +647,17 @@ func checkDelivery(c *mon.Custom, cli string, s *Script, e *Expect, delivery str
 		}
 	case "dash":
 		ps := cut(3)
-		args = []string{write("a.pql", ps[0]), "-", write("c.pql", ps[2])}
-		stdin = ps[1]
+		switch rng.Intn(3) {
+		case 0:
+			args = []string{write("a.pql", ps[0]), "-", write("c.pql", ps[2])}
+			stdin = ps[1]
+		case 1: // standard input first, files after it
+			args = []string{"-", write("b.pql", ps[1]), write("c.pql", ps[2])}
+			stdin = ps[0]
+		default: // files first, standard input last
+			args = []string{write("a.pql", ps[0]), write("b.pql", ps[1]), "-"}
+			stdin = ps[2]
+		}
 	case "manyfiles":
 		// the script cut in two with a long run of empty files (and some blank ones) in between
 		ps := cut(2)
